@@ -16,6 +16,10 @@ pub const VARIANT: &str = if cfg!(feature = "macro_cfg_dyn_hydrate") {
     "dynhyd"
 } else if cfg!(feature = "macro_cfg_dyn_ssr") {
     "dynssr"
+} else if cfg!(feature = "macro_cfg_dyn_csr") {
+    "dyncsr"
+} else if cfg!(feature = "macro_cfg_misc") {
+    "misc"
 } else {
     ""
 };
